@@ -233,6 +233,23 @@ func NewCollection(options CollectionOptions) (*Collection, error) {
 		}
 	}
 
+	// A new collection must be able to store documents: reject unsupported
+	// options before anything is created on disk. (For an existing file the
+	// options are those stored in its header.)
+	if !fileExists {
+		switch options.Quantization {
+		case 0, 4, 8, 16, 32, 64:
+		default:
+			return nil, fmt.Errorf("unsupported quantization %d (supported: 4, 8, 16, 32, 64)", options.Quantization)
+		}
+		if options.DimensionCount <= 0 {
+			return nil, fmt.Errorf("dimension count must be positive, got %d", options.DimensionCount)
+		}
+		if options.DistanceMethod != Euclidean && options.DistanceMethod != Cosine {
+			return nil, fmt.Errorf("unsupported distance method")
+		}
+	}
+
 	// Open or create the memory-mapped file with the specified mode
 	spanFile, err := OpenFile(options.Name, options.FileMode)
 	if err != nil {
